@@ -199,9 +199,9 @@ func TypeName(t reflect.Type) string {
 
 // RawValue unpack value to raw value.
 // NOTE: it may be the zero value
-// return value of pointer pointed if it's pointer
+// return value of pointer pointed if it's pointer, and the value held if it's an interface
 func RawValue(v reflect.Value) reflect.Value {
-	for v.Kind() == reflect.Ptr {
+	for v.Kind() == reflect.Ptr || v.Kind() == reflect.Interface {
 		v = v.Elem()
 	}
 	return v
